@@ -129,12 +129,17 @@ def streamSpec (endErr : PbErr) : List (List Nat × List Nat) → Nat → List S
       let e : PbErr := if endErr = .eof then (if avail = 0 ∨ avail = 32 then .eof else .unexpectedEOF) else endErr
       [s!"{avail}:{showBytes (if avail ≥ 32 then ver else [])}:{showPbErr (some e)}:-"]
 
-/-- `pbs frames cut end chunk stream` -/
+/-- `pbs frames cut end chunk stream`: `stream` is what the real `Marshal` wrote for the frames (cut after
+    `cut` bytes). The model marshals the frames itself (`pbFrame`) and unmarshals ITS stream; when the two
+    streams differ the model output says so, so that a wrong `Marshal` is a disagreement with the model too. -/
 def hPbStream : List String → String → Res
   | [frames, cut, endK, _chunk, stream], impl => do
     let frames ← (splitNE frames ";").mapM pFrame
     let cut ← pInt cut; let endErr ← pEnd endK; let stream ← pBytes stream
-    let model := String.intercalate ";" ((runUnmarshal (frames.length + 1) ⟨stream, endErr⟩).map showPbRes)
+    let modelFull := frames.flatMap fun (v, b) => (pbFrame v b).getD []
+    let modelStream := if cut < 0 then modelFull else modelFull.take cut.toNat
+    let model := (if modelStream == stream then "" else "MARSHAL-WROTE-OTHER-BYTES;") ++
+      String.intercalate ";" ((runUnmarshal (frames.length + 1) ⟨modelStream, endErr⟩).map showPbRes)
     let full := frames.flatMap fun (v, b) => v ++ List.replicate (16 - v.length) 0 ++ le64 32 ++ le64 b.length ++ b
     let expectStream := if cut < 0 then full else full.take cut.toNat
     let spec := String.intercalate ";" (streamSpec endErr frames expectStream.length)
